@@ -18,7 +18,7 @@ LEVEL_TEXT = ("Lean 4 theorems for every number of fields >= 1, every common len
 LEVEL_NOTE = ("Trusted: Lean kernel (+ standard axioms); hand model of the field-wise dispatch (tied by correspondence); numpy's own "
               "indexing / concatenate on each field; __eq__ and text rendering are correspondence-only / not modelled.")
 TECHNIQUE = "Lean 4 proof that field-wise operations commute with zipping columns into entries; correspondence"
-DESIGN_REF = "6.18"
+DESIGN_REF = "7"
 LEAN_MODULES = ["NpsVerif.Props.C18"]
 KERNELS = ()
 RULE = ("cases = generated dataclass (1..4 fields, each 1-D int / float or 2-D of width 1..3) x common length 0..5 (or deliberately "
